@@ -4,9 +4,10 @@
 Byte strings are `List Char` (every char stands for one byte; the driver only produces chars < 256).
 Followed function by function from `/usr/lib/go-1.23/src/net/url/url.go`, path mode (`encodePath`) only:
 `ishex`/`unhex`, `unescape`, `shouldEscape`, `escape`, `validEncoded`, `setPath`, `EscapedPath`,
-`RequestURI`, and `parse(rawURL, viaRequest = true)` restricted to origin-form targets (first byte `/`,
-so `getScheme` returns no scheme and no authority is parsed). `*` and absolute-form targets are not
-modelled (`parseRequestURI` returns `none` on them, like on a malformed escape).
+`RequestURI`, and `parse(rawURL, viaRequest = true)` for origin-form targets (first byte `/`, so `getScheme`
+returns no scheme and no authority is parsed) and for absolute-form targets with a simple authority
+(`getScheme`, query split, `//authority`, `setPath`). `*`, opaque forms, userinfo and bracketed IP literals
+are not modelled (`parseRequestURI` returns `none` on them, like on a malformed escape).
 -/
 namespace FwdURL
 
@@ -102,17 +103,70 @@ def cutQ : Bytes → Bytes × Option Bytes
     if c = '?' then ([], some rest)
     else let r := cutQ rest; (c :: r.1, r.2)
 
-/-- `url.ParseRequestURI` on an origin-form target -/
+/-! ### absolute-form targets (`scheme://authority[/path][?query]`, RFC 7230 §5.3.2) -/
+
+def isAlpha (c : Char) : Bool := ('a' ≤ c && c ≤ 'z') || ('A' ≤ c && c ≤ 'Z')
+def isDigit (c : Char) : Bool := '0' ≤ c && c ≤ '9'
+
+/-- result of `getScheme` -/
+inductive SchemeRes
+  | noScheme                       -- `return "", rawURL, nil`
+  | err                            -- "missing protocol scheme"
+  | found (scheme rest : Bytes)    -- `return rawURL[:i], rawURL[i+1:], nil`
+  deriving DecidableEq, Repr
+
+/-- `getScheme`, scanning from position `i`; `first` says `i == 0` -/
+def scanScheme (first : Bool) : Bytes → SchemeRes
+  | [] => .noScheme
+  | c :: r =>
+    if isAlpha c then
+      match scanScheme false r with
+      | .found s rest => .found (c :: s) rest
+      | x => x
+    else if isDigit c || c = '+' || c = '-' || c = '.' then
+      if first then .noScheme
+      else match scanScheme false r with
+        | .found s rest => .found (c :: s) rest
+        | x => x
+    else if c = ':' then
+      if first then .err else .found [] r
+    else .noScheme
+
+/-- the query split of `url.parse`: (rest, ForceQuery, RawQuery) -/
+def splitQuery (rest : Bytes) : Bytes × Bool × Bytes :=
+  if rest.getLast? = some '?' && rest.count '?' = 1 then (rest.dropLast, true, [])
+  else let c := cutQ rest; (c.1, false, c.2.getD [])
+
+/-- authorities the model covers: a reg-name of letters, digits, `.`, `-` (possibly empty) with an optional
+`:digits` port — what `parseAuthority`/`parseHost` accept without any rewriting. Userinfo, IP literals in
+brackets and escapes are not modelled (`parseRequestURI` returns `none` on them). -/
+def simpleAuthority (a : Bytes) : Bool :=
+  (a.takeWhile (· ≠ ':')).all (fun c => isAlnum c || c = '.' || c = '-') &&
+  ((a.dropWhile (· ≠ ':')).drop 1).all isDigit
+
+/-- `url.ParseRequestURI` on an origin-form or absolute-form target -/
 def parseRequestURI (t : Bytes) : Option URL :=
   if containsCTL t then none
-  else match t with
-    | '/' :: _ =>
-      -- `strings.HasSuffix(rest, "?") && strings.Count(rest, "?") == 1`
-      if t.getLast? = some '?' && t.count '?' = 1 then
-        setPath { forceQuery := true } t.dropLast
-      else
-        let c := cutQ t
-        setPath { rawQuery := c.2.getD [] } c.1
-    | _ => none
+  else if t.head? = some '/' then
+    -- origin-form: `getScheme` finds no scheme, no authority is parsed
+    -- `strings.HasSuffix(rest, "?") && strings.Count(rest, "?") == 1`
+    if t.getLast? = some '?' && t.count '?' = 1 then
+      setPath { forceQuery := true } t.dropLast
+    else
+      let c := cutQ t
+      setPath { rawQuery := c.2.getD [] } c.1
+  else
+    match scanScheme true t with
+    | .found scheme rest =>
+      let sq := splitQuery rest
+      match sq.1 with
+      | '/' :: '/' :: r2 =>
+        let auth := r2.takeWhile (· ≠ '/')
+        if simpleAuthority auth then
+          setPath { scheme := String.ofList (scheme.map Char.toLower), host := String.ofList auth,
+                    forceQuery := sq.2.1, rawQuery := sq.2.2 } (r2.dropWhile (· ≠ '/'))
+        else none
+      | _ => none   -- opaque / rootless forms: not modelled
+    | _ => none     -- "invalid URI for request" (`*` is not modelled)
 
 end FwdURL
